@@ -679,9 +679,13 @@ class StmtMixin:
                 i = fr.locals['__i__'].e
                 if seqterm is not None:
                     hint = None
+                    fact = None
                     if isinstance(it, VRef):
                         hint = getattr(ex.heap[it.addr], 'elem_hint', None)
+                        fact = getattr(ex.heap[it.addr], 'elem_fact', None)
                     interp.assign(st.target, VSym(seqterm[i], hint=hint), fr, st)
+                    if fact is not None:
+                        fact(ex, seqterm[i])
                 else:
                     interp.assign(st.target, VInt(i), fr, st)
 
